@@ -159,6 +159,27 @@ def score_block(case):
                     v.append(violation("score_depends_on_what_the_object_saw_before", {"target": label, "P": P, "got": got, "expected": exp2,
                                                                                      "history": "compute_affinity; evaluate; edit the array in place; evaluate"},
                                        target=label, dist=dist, mode=mode, K=K, n=n, via="in_place_edit"))
+                # same for the predictions array (same object, new rows) and for the data handed to compute_affinity
+                Pm = P.copy()
+                g(Pm, Ag)
+                Pm[:] = Pm[::-1].copy() if n > 1 else Pm
+                Pm[:, [0, -1]] = Pm[:, [-1, 0]]
+                got = float(g(Pm, Ag))
+                exp3, slack3 = ref.ref_score_slack(np.array(Pm), np.array(Ag), dist, mode)
+                n_eval += 1
+                if abs(got - exp3) > ref.tol(dist, exp3, slack3, scale):
+                    v.append(violation("score_depends_on_what_the_object_saw_before", {"target": label, "P": Pm, "got": got, "expected": exp3,
+                                                                                     "history": "evaluate; edit the predictions array in place; evaluate"},
+                                       target=label, dist=dist, mode=mode, K=K, n=n, via="in_place_edit_P"))
+                if y is None:
+                    Xm = X.copy()
+                    g.compute_affinity(Xm)
+                    Xm *= 1.5
+                    A_again = g.compute_affinity(Xm)
+                    A_fresh = factory().compute_affinity(Xm.copy())
+                    if not np.array_equal(np.asarray(A_again), np.asarray(A_fresh)):
+                        v.append(violation("affinity_depends_on_what_the_object_saw_before", {"target": label, "history": "compute_affinity(X); X edited in place; compute_affinity(X)"},
+                                           target=label, dist=dist, mode=mode, K=K, n=n, via="in_place_edit_X"))
         if nontrivial:
             nt += 1
         if len(outs) < 4:
